@@ -26,9 +26,11 @@ func init() {
 			recv = info.Defs[fd.Recv.List[0].Names[0]]
 		}
 		// classify a selector chain ending in .RunMode
+		xdefs := localDefs(info, fd.Body)
 		classify := func(e ast.Expr) string {
 			var names []string
-			cur := unparen(e)
+			// a mode read into a single-definition local first (own := p.RunMode)
+			cur := xdefs.resolve1(info, e)
 			for {
 				se, ok := cur.(*ast.SelectorExpr)
 				if !ok {
@@ -64,6 +66,19 @@ func init() {
 			}
 			return false
 		}
+		// a condition over locals that hold run modes (own > runmode.Default)
+		mentionsModeLocal := func(e ast.Expr) bool {
+			found := false
+			ast.Inspect(e, func(x ast.Node) bool {
+				if id, ok := x.(*ast.Ident); ok {
+					if r := xdefs.resolve1(info, id); r != ast.Expr(id) && strings.Contains(c.src(r), "RunMode") {
+						found = true
+					}
+				}
+				return true
+			})
+			return found
+		}
 		// find the block that holds the stores
 		var holder *ast.BlockStmt
 		walkStack(fd.Body, func(nd ast.Node, stack []ast.Node) bool {
@@ -74,9 +89,12 @@ func init() {
 			// outermost block that is not the function body: the else-branch of `if flags&F_FUNCTION`
 			for i := len(stack) - 1; i >= 0; i-- {
 				if b, ok := stack[i].(*ast.BlockStmt); ok {
-					// the nearest block whose parent is not an if testing run modes
+					// the nearest block whose parent is not an if (or a tagless switch) testing run modes
 					if i > 0 {
-						if ifs, ok := stack[i-1].(*ast.IfStmt); ok && (strings.Contains(c.src(ifs.Cond), "RunMode")) {
+						if ifs, ok := stack[i-1].(*ast.IfStmt); ok && (strings.Contains(c.src(ifs.Cond), "RunMode") || mentionsModeLocal(ifs.Cond)) {
+							continue
+						}
+						if sw, ok := stack[i-1].(*ast.SwitchStmt); ok && sw.Tag == nil && sw.Body == b {
 							continue
 						}
 					}
@@ -197,6 +215,41 @@ func init() {
 					}
 				case *ast.BlockStmt:
 					cur = exec(st.List, en, cur)
+				case *ast.SwitchStmt:
+					// tagless switch = if / else-if chain: the first clause with a true case runs
+					if st.Tag != nil || st.Init != nil {
+						undec = "tagged switch " + c.src(st.Tag)
+						return cur
+					}
+					var chosen, dflt *ast.CaseClause
+					for _, cl := range st.Body.List {
+						cc := cl.(*ast.CaseClause)
+						if cc.List == nil {
+							dflt = cc
+							continue
+						}
+						if chosen != nil {
+							continue
+						}
+						for _, ce := range cc.List {
+							if evalCond(ce, en, cur) {
+								chosen = cc
+								break
+							}
+						}
+					}
+					if chosen == nil {
+						chosen = dflt
+					}
+					if chosen != nil {
+						if n := len(chosen.Body); n > 0 {
+							if br, isBr := chosen.Body[n-1].(*ast.BranchStmt); isBr && br.Tok == token.FALLTHROUGH {
+								undec = "fallthrough in " + c.src(st)
+								return cur
+							}
+						}
+						cur = exec(chosen.Body, en, cur)
+					}
 				default:
 					undec = "statement " + c.src(s)
 				}
